@@ -50,6 +50,11 @@ type behIn struct {
 	PErr    int    `json:"perr,omitempty"`    // % of remote pushes returning an error
 	PCancel int    `json:"pcancel,omitempty"` // % of writes during which the context is cancelled (plan / push kinds)
 	LatUs   int    `json:"lat,omitempty"`     // max port latency in microseconds (rt kind)
+	// RScript scripts the first calls of the remote owner port per owner of this plan:
+	// "partial" (first route accepted, the others retryable; a single route: retryable), "err" (transport
+	// error, no result), "errres" (error together with a partial result), "panic", "ok" (all accepted),
+	// "retry" (all retryable); later calls / other words fall back to the percentages above
+	RScript []string `json:"rscript,omitempty"`
 }
 
 type eventIn struct {
@@ -130,9 +135,16 @@ func genEvent(r *rand.Rand, msg uint64) eventIn {
 	return e
 }
 
+// ownerBias != 0: most routes of the plan belong to that owner (several routes in one owner batch)
+var ownerBias uint64
+
 func genRoute(r *rand.Rand, uid string, tag uint64, serial *uint64) routeIn {
 	*serial++
-	rt := routeIn{UID: uid, Owner: vh.Pick(r, uint64(1), 1, 1, 2, 2, 3), Sess: vh.Pick(r, uint64(1), 2, 3),
+	owner := vh.Pick(r, uint64(1), 1, 1, 2, 2, 3)
+	if ownerBias != 0 && r.IntN(4) != 0 {
+		owner = ownerBias
+	}
+	rt := routeIn{UID: uid, Owner: owner, Sess: vh.Pick(r, uint64(1), 2, 3),
 		Boot: uint64(1 + r.IntN(2)), Seq: tag*1000 + *serial, Dev: vh.Pick(r, "d1", "d2", ""), Flag: uint8(r.IntN(3)), Level: uint8(r.IntN(2))}
 	if r.IntN(30) == 0 {
 		rt.Owner = 0
@@ -160,11 +172,23 @@ func genBeh(r *rand.Rand, kind string) behIn {
 	if kind == "rt" {
 		b.LatUs = vh.Pick(r, 0, 0, 20, 80, 250)
 	}
+	if (kind == "plan" && r.IntN(2) == 0) || (kind == "rt" && r.IntN(5) < 2) {
+		// narrowed retry set followed by a failing attempt (and the other orders)
+		b.RScript = vh.Pick(r,
+			[]string{"partial", "err"}, []string{"partial", "err"}, []string{"partial", "panic"},
+			[]string{"partial", "errres"}, []string{"partial", "partial", "err"}, []string{"partial", "err", "err"},
+			[]string{"err", "partial"}, []string{"retry", "err", "partial"}, []string{"partial", "err", "ok"})
+	}
 	return b
 }
 
 func genPlan(r *rand.Rand, kind string, idx int, ev eventIn) *planIn {
 	p := &planIn{Mode: 1, Ev: ev, Beh: genBeh(r, kind)}
+	ownerBias = 0
+	if len(p.Beh.RScript) > 0 || r.IntN(4) == 0 {
+		ownerBias = vh.Pick(r, uint64(2), 2, 3, 1)
+	}
+	defer func() { ownerBias = 0 }()
 	switch r.IntN(20) {
 	case 0, 1, 2, 3, 4:
 		p.Mode = 2
@@ -243,8 +267,8 @@ func genCfg(r *rand.Rand, kind string) cfgIn {
 	case 1:
 		c.Local = 2
 	}
-	c.Batch = vh.Pick(r, 0, 1, 1, 2, 2, 3, 5)
-	c.Retry = vh.Pick(r, 0, 1, 2, 2, 3, 4)
+	c.Batch = vh.Pick(r, 0, 0, 1, 2, 2, 3, 5)
+	c.Retry = vh.Pick(r, 0, 0, 1, 2, 3, 3, 4)
 	c.OC = 1
 	c.MaxRecip = vh.Pick(r, 0, 0, 5, 8, 100)
 	c.NoWriter = r.IntN(25) == 0
